@@ -95,8 +95,47 @@ pub fn random_doc(rng: &mut Rng, depth: usize) -> Doc {
     }
 }
 
+fn int_doc(v: i128) -> Doc {
+    if v >= 0 {
+        Doc::Int(v as u64)
+    } else {
+        Doc::Neg(v as i64)
+    }
+}
+
+fn valid_int(t: IntTy, rng: &mut Rng) -> Doc {
+    // the payload can only carry u64 / i64
+    let lo = t.min.max(i64::MIN as i128);
+    let hi = t.max.min(u64::MAX as i128);
+    let mut v = match rng.below(6) {
+        0 => lo,
+        1 => hi,
+        2 => 1,
+        3 => -1,
+        4 => rng.below(1000) as i128,
+        _ => -(rng.below(1000) as i128),
+    };
+    if v < lo || v > hi {
+        v = hi.min(7);
+    }
+    if t.nonzero && v == 0 {
+        v = 1;
+    }
+    int_doc(v)
+}
+
 fn valid_scalar(s: Sc, rng: &mut Rng) -> Doc {
+    if let Sc::Int(t) = s {
+        return valid_int(t, rng);
+    }
     match s {
+        Sc::Int(_) => unreachable!(),
+        Sc::F32 => match rng.below(4) {
+            0 => Doc::Int(rng.below(100) as u64),
+            1 => Doc::Neg(-(1 + rng.below(100) as i64)),
+            2 => Doc::Float(0.1),
+            _ => Doc::Float(rng.below(1000) as f64 / 4.0),
+        },
         Sc::Bool => Doc::Bool(rng.chance(1, 2)),
         Sc::U8 => Doc::Int(*rng.pick(&[0u64, 1, 7, 42, 200, 255])),
         Sc::I32 => match rng.below(5) {
@@ -428,6 +467,27 @@ impl<'a> Mutator<'a> {
             Desc::Scalar(s) => {
                 if self.cfg.range && self.hit(rng) {
                     let new = match s {
+                        Sc::Int(t) => {
+                            // just outside the domain, where the payload can express it
+                            let mut c: Vec<Doc> = vec![];
+                            if t.max < u64::MAX as i128 {
+                                c.push(int_doc(t.max + 1));
+                            }
+                            if t.min > i64::MIN as i128 {
+                                c.push(int_doc(t.min - 1));
+                            }
+                            if t.nonzero {
+                                c.push(Doc::Int(0));
+                            }
+                            if !t.signed {
+                                c.push(Doc::Neg(-1));
+                            }
+                            if c.is_empty() {
+                                None
+                            } else {
+                                Some(rng.pick(&c).clone())
+                            }
+                        }
                         Sc::U8 => Some(Doc::Int(*rng.pick(&[256u64, 300, u64::MAX]))),
                         Sc::I32 => Some(if rng.chance(1, 2) { Doc::Int(i32::MAX as u64 + 1) } else { Doc::Neg(i32::MIN as i64 - 1) }),
                         Sc::Char => Some(Doc::Str(rng.pick(&["", "ab", "漢字"]).to_string())),
